@@ -15,13 +15,24 @@ OBLIGATIONS = [
     "KafVerif.C30.download_sound",
     "KafVerif.C30.streamVerify_complete",
     "KafVerif.C30.downloadOld_violates",
+    "KafVerif.C30.resolve_uses_own_config",
+    "KafVerif.C30.iceberg_history_independent",
+    "KafVerif.C30.iceberg_sound",
+    "KafVerif.C30.iceberg_complete",
+    "KafVerif.C30.resolveCached_violates",
 ]
-BUILDS = {"h": ("root", "./cmd/proxy", ["C30"])}
+BUILDS = {"h": ("root", "./cmd/proxy", ["C30"]), "ice": ("iceberg", "./cmd/verif_c30", ["C30"], {"extra": ["-ldflags=-s -w"]})}
 LEVEL_TEXT = ("Lean 4 theorems for every hash function, envelope, configuration and storage behaviour: Resolver.Resolve and "
               "Consumer.Unwrap return a blob only if its digest under the declared algorithm equals the declared value and it "
               "is within the size limit (resolve_sound, unwrap_sound, declares); the proxy download endpoint sends bytes only "
-              "if SHA-256 and size equal what the caller supplied (download_sound). Tied to the source by running generated "
-              "envelopes x storage behaviours through the real Resolver/Consumer/handleHTTPDownload and the model.")
+              "if SHA-256 and size equal what the caller supplied (download_sound); the iceberg processor's resolve stage "
+              "resolves a record of mapping m with a resolver configured from m's OWN LfsConfig after every history of "
+              "previously processed mappings (resolve_uses_own_config, iceberg_history_independent), so every blob it hands on "
+              "meets ITS mapping's checksum/size settings (iceberg_sound) and an intact blob within limits is resolved "
+              "(iceberg_complete). Tied to the source by running generated envelopes x storage behaviours through the real "
+              "Resolver/Consumer/handleHTTPDownload, and multi-mapping Processors (2-4 mappings with different LFS settings, one "
+              "shared scripted S3 reader, segments in generated orders on the SAME Processor) through the real "
+              "resolveLfsRecords, and the model.")
 LEVEL_NOTE = ("Hash functions, JSON decoding and strings.TrimSpace/ToLower outside ASCII are parameters; the harness uses the "
               "real hashes and the monitor recomputes them independently (hashlib/zlib).")
 TECHNIQUE = "Lean 4 proof over a hand-written model + Go/Lean differential correspondence + direct monitor"
@@ -32,6 +43,11 @@ ASSUMPTIONS = [
     "download requests are independent in the model (the decision is a function of the request and its own object; the request id is "
     "not an input): VALIDATED by `cdl` ops — 2-4 overlapping downloads through the real handler with shared / duplicate X-Request-ID "
     "values, parked in the S3 fake right before EOF and released in a scheduled order; every sequential download also carries an X-Request-ID from a small pool",
+    "iceberg stage: store_metadata and resolve_concurrency are not inputs of which bytes are returned (not in the Lean model): VALIDATED by "
+    "generating both per mapping and passing them to the real resolveLfsRecords in every `ice` scenario; the Processor is built "
+    "directly (mappingByTopic + lfsS3), not through config.Load / processor.New (env overrides and defaults are applied before the "
+    "Processor exists and are the same for every mapping)",
+    "iceberg stage: a value that passes the marker test but is not a `env` op decodes to an error (generator only emits such raw values)",
 ]
 
 
@@ -261,11 +277,198 @@ def monitor_cdl(op, out):
     return None
 
 
+# ---------------------------------------------------------------------------------------------------------------------
+# third reader: iceberg processor resolveLfsRecords, ONE Processor with several mappings
+
+ICE_MODES = ["resolve"] * 7 + ["hybrid"] * 2 + ["reference", "skip", "off", "bogus"]
+ICE_MAX = [4, 5, 15, 16, 17, 32, 33, 39, 40]
+RAWS = [b"plain text value", b"", b"{", b'{"a":1}', b'{"kfs_lfs":1,"bucket":', b'{"kfs_lfs":1,' + b"x" * 20,
+        b'{"kfs_lfs": nope, not json at all }', b'{"kfs_lfs":1}']
+
+
+def gen_ice_mapping(rng, role):
+    conc = rng.choice([0, 1, 1, 2, 4, 4, -1])
+    meta = rng.choice([0, 1])
+    if role == "lax":
+        return {"mode": "resolve", "max": rng.choice([0, 0, 1000, -1]), "meta": meta, "val": "0", "conc": conc}
+    if role == "strict":
+        return {"mode": "resolve" if not rng.chance(1, 6) else "hybrid", "max": rng.choice(ICE_MAX), "meta": meta,
+                "val": rng.choice(["1", "d"]), "conc": conc}
+    if role == "checksum-only":
+        return {"mode": "resolve", "max": rng.choice([0, 0, 1000]), "meta": meta, "val": rng.choice(["1", "d"]), "conc": conc}
+    if role == "size-only":
+        return {"mode": "resolve", "max": rng.choice(ICE_MAX), "meta": meta, "val": "0", "conc": conc}
+    mode = rng.choice(ICE_MODES)
+    mx = rng.choice([0, -1, 1] + ICE_MAX + [1000])
+    if mode == "hybrid" and mx <= 0:
+        mx = rng.choice(ICE_MAX)            # config.Load refuses hybrid without a positive max_inline_size
+    return {"mode": mode, "max": mx, "meta": meta, "val": rng.choice(["1", "0", "d"]), "conc": conc}
+
+
+def gen_ice(rng):
+    """One Processor: 2-4 mappings with different LFS settings over one store, then 3-7 segments in a random order of mappings."""
+    nmap = rng.range(2, 4)
+    roles = ["lax", "strict"] if not rng.chance(1, 5) else [rng.choice(["lax", "random"]), rng.choice(["checksum-only", "size-only", "random"])]
+    while len(roles) < nmap:
+        roles.append(rng.choice(["lax", "strict", "checksum-only", "size-only", "random", "random"]))
+    for i in range(len(roles) - 1, 0, -1):
+        j = rng.below(i + 1); roles[i], roles[j] = roles[j], roles[i]
+    maps = [gen_ice_mapping(rng, r) for r in roles]
+    s3 = "nil" if rng.chance(1, 30) else "ok"
+    keys, known, calls, blobs = [], [], [], []
+    ncalls = rng.range(3, 7)
+    for ci in range(ncalls):
+        m = rng.below(nmap) if not rng.chance(1, 25) else nmap           # nmap = a topic without mapping
+        recs = []
+        for ri in range(rng.choice([1, 1, 1, 2, 2, 3, 0] if ci else [1, 1, 2])):
+            if rng.chance(1, 10):
+                recs.append(["raw", hexs(rng.choice(RAWS))] + ["-"] * 6)
+                continue
+            if known and rng.chance(1, 4):
+                key, payload = rng.choice(known)                          # the same object referenced from another segment / mapping
+            else:
+                key, payload = b"ns/t/lfs/2026/01/01/obj-c%d-r%d" % (ci, ri), gen_payload(rng)
+                kind, stored = ("exact", payload) if rng.chance(1, 2) else variant(rng, payload)
+                skind = rng.choice(["ok"] * 12 + ["err", "missing"])
+                if skind != "missing":
+                    keys.append([hexs(key), skind, hexs(stored)]); blobs.append(stored)
+                known.append((key, payload))
+            env = gen_env(rng, payload)
+            if env["key"]:
+                env["key"] = key
+            size = rng.choice([len(payload)] * 5 + [0, len(payload) + 1, 1, 10 ** 6, -1])
+            recs.append(["env", str(env["version"]), hexs(env["bucket"]), hexs(env["key"]), hexs(env["sha"]), hexs(env["checksum"]),
+                         hexs(env["alg"]), str(size)])
+        calls.append((m, recs))
+    return ice_line(s3, maps, keys, calls, blobs), {"kind": "ice"}
+
+
+def ice_line(s3, maps, keys, calls, blobs):
+    t = ["ice", s3]
+    for mp in maps:
+        t += ["M", mp["mode"], str(mp["max"]), str(mp["meta"]), mp["val"], str(mp["conc"])]
+    for k in keys:
+        t += ["K"] + k
+    for m, recs in calls:
+        t += ["C", str(m)]
+        for r in recs:
+            t += ["R"] + r
+    return " ".join(t) + table(blobs)
+
+
+def ice_corpus():
+    """The demo of seeded/C30-r3-1 in both orders: lax mapping / strict mapping (limit 4), tampered and oversized objects."""
+    good, evil, big = b"good", b"evil", b"a-much-larger-blob"
+    sg, sb = digests(good)[0], digests(big)[0]
+    maps = [{"mode": "resolve", "max": 0, "meta": 0, "val": "0", "conc": 1}, {"mode": "resolve", "max": 4, "meta": 0, "val": "1", "conc": 1}]
+    keys = [[hexs(b"raw/1"), "ok", hexs(good)], [hexs(b"strict/1"), "ok", hexs(evil)], [hexs(b"strict/2"), "ok", hexs(big)], [hexs(b"strict/3"), "ok", hexs(good)]]
+    env = lambda key, sha, n: ["env", "1", hexs(b"b"), hexs(key), hexs(sha), "-", "-", str(n)]  # noqa: E731
+    a = (0, [env(b"raw/1", sg, 4)])
+    b1, b2, b3 = (1, [env(b"strict/1", sg, 4)]), (1, [env(b"strict/2", sb, len(big))]), (1, [env(b"strict/3", sg, 4)])
+    c = (0, [env(b"strict/2", sb, len(big)), env(b"strict/1", sg, 4)])
+    return [ice_line("ok", maps, keys, order, [good, evil, big]) for order in ([a, b1, b2, b3, c], [b3, c, b1, a, b2], [b1, a, b3])]
+
+
+def parse_ice(op):
+    f = op.split(" | ")[0].split()[1:]
+
+    def split(toks, sep):
+        out = [[]]
+        for x in toks:
+            if x == sep:
+                out.append([])
+            else:
+                out[-1].append(x)
+        return out
+    ub = lambda x: b"" if x == "-" else bytes.fromhex(x)  # noqa: E731
+    sections = split(f, "C")
+    head = split(sections[0], "K")
+    mhead = split(head[0], "M")
+    maps = [{"mode": m[0], "max": int(m[1]), "validate": m[3] != "0"} for m in mhead[1:]]      # nil = default = on
+    store = {ub(k[0]): (ub(k[2]) if k[1] == "ok" else None) for k in head[1:]}
+    calls = []
+    for c in sections[1:]:
+        parts = split(c, "R")
+        recs = []
+        for r in parts[1:]:
+            if r[0] == "raw":
+                recs.append(None)
+            else:
+                recs.append({"version": int(r[1]), "bucket": ub(r[2]), "key": ub(r[3]), "sha": ub(r[4]), "checksum": ub(r[5]), "alg": ub(r[6]),
+                             "size": int(r[7])})
+        calls.append((int(parts[0][0]), recs))
+    return mhead[0][0] != "nil", maps, store, calls
+
+
+def monitor_ice(op, out):
+    """Every record of mapping m is judged by m's OWN settings (independent of the model): a returned blob matches the envelope's
+    declared checksum unless m turned validation off and is within m's max_inline_size; an intact blob within limits is resolved."""
+    has_s3, maps, store, calls = parse_ice(op)
+    if not out.startswith("ice"):
+        return "iceberg-harness", "unexpected outcome " + out[:120]
+    res = [x.strip() for x in out[3:].split(";")] if calls else []
+    if len(res) != len(calls):
+        return "iceberg-harness", "answered %d of %d calls: %s" % (len(res), len(calls), out[:120])
+    for ci, ((m, recs), r) in enumerate(zip(calls, res)):
+        if "panic" in r:
+            return "iceberg-resolve-panics", r[:120]
+        if m >= len(maps):
+            continue
+        cfg = maps[m]
+        before = [c[0] for c in calls[:ci]]
+        where = ("mapping %d (mode=%s validate_checksum=%s max_inline_size=%d) of a %d-mapping processor, after segments of mappings %s"
+                 % (m, cfg["mode"], cfg["validate"], cfg["max"], len(maps), before))
+        got = {}
+        if r.startswith("ok"):
+            for t in r.split()[1:]:
+                i, v = t.split(":", 1)
+                got[int(i)] = v
+        # soundness: whatever is returned as a blob satisfies m's own settings
+        for i, v in got.items():
+            if not v.startswith("b=") or i >= len(recs) or recs[i] is None:
+                continue
+            blob = b"" if v[2:] == "-" else bytes.fromhex(v[2:])
+            env = recs[i]
+            if cfg["max"] > 0 and len(blob) > cfg["max"]:
+                return "iceberg-exceeds-mapping-max-size", "resolveLfsRecords returned a %d-byte blob for a record of %s" % (len(blob), where)
+            if cfg["validate"]:
+                d = declared(env)
+                if d == "err":
+                    return "iceberg-accepts-unsupported-alg", "a blob was returned for an unsupported checksum algorithm %r by %s" % (env["alg"], where)
+                if d is not None and real_hash(d[0], blob) != d[1]:
+                    return ("iceberg-returns-checksum-mismatch",
+                            "resolveLfsRecords returned a blob whose %s digest differs from the envelope's declared %r for a record of %s" % (d[0], d[1][:70], where))
+        # completeness: all resolve jobs of the segment are intact and within m's limits => each is handed on as its blob
+        if not has_s3 or cfg["mode"] not in ("resolve", "hybrid"):
+            continue
+        jobs, intact = [], True
+        for i, env in enumerate(recs):
+            if env is None or env["version"] == 0 or not (env["bucket"] and env["key"] and env["sha"]):
+                continue
+            if cfg["mode"] == "hybrid" and not (0 < env["size"] <= cfg["max"]):
+                continue
+            blob = store.get(env["key"])
+            d = declared(env)
+            if blob is None or d == "err" or (cfg["max"] > 0 and len(blob) > cfg["max"]) or \
+                    (cfg["validate"] and d is not None and real_hash(d[0], blob) != d[1]):
+                intact = False
+                break
+            jobs.append((i, blob))
+        if intact and jobs:
+            for i, blob in jobs:
+                if got.get(i) != "b=" + hexs(blob):
+                    return ("iceberg-refuses-intact-blob", "record %d of a segment of %s: the stored %d-byte blob is within the mapping's limit and matches "
+                            "the declared checksum but the segment answered %r" % (i, where, len(blob), r[:80]))
+    return None
+
+
 def monitor(op, out):
     """The property itself on one implementation line.  Returns (fingerprint, what) or None."""
     f = op.split(" | ")[0].split()
     if f[0] == "cdl":
         return monitor_cdl(op, out)
+    if f[0] == "ice":
+        return monitor_ice(op, out)
     if f[0] == "download":
         if out.startswith("bytes "):
             body = b"" if out.split()[1] == "-" else bytes.fromhex(out.split()[1])
@@ -302,15 +505,61 @@ def monitor(op, out):
     return None
 
 
-def run_ops(ck, binary, ops, tag):
+def run_ops(ck, ops, tag):
+    """`ice` scenarios go to the iceberg harness, everything else to the proxy harness; ONE Lean driver run answers all of them.
+    The two harness builds (+ their runs) and the Lean driver run side by side: the iceberg module links slowly."""
+    import threading
     fn = ck.path("ops_%s.txt" % tag)
     open(fn, "w").write("\n".join(ops) + "\n")
-    rc, out, err = ck.run_bin(binary, stdin_path=fn, env={"VERIF_HARNESS": "C30"})
-    impl = out.split("\n")[:-1]
-    if rc != 0 or len(impl) != len(ops):
-        ck.broke("implementation harness did not answer every op", "rc=%s answered %d of %d\n%s" % (rc, len(impl), len(ops), err[-800:]))
-        return None, None
-    model = ck.lean_run("C30", fn)
+    impl = [None] * len(ops)
+    res = {}
+
+    def side(name, sel):
+        idx = [i for i, o in enumerate(ops) if sel(o)]
+        b = BUILDS[name]
+        kw = dict(b[3]) if len(b) > 3 else {}
+        binary, log = ck.go_build(b[0], b[1], b[2], name="h_" + name, **kw)
+        if binary is None:
+            res[name] = ("build", log)
+            return
+        if not idx:
+            res[name] = ("ok", idx, [])
+            return
+        sub = ck.path("ops_%s_%s.txt" % (tag, name))
+        open(sub, "w").write("\n".join(ops[i] for i in idx) + "\n")
+        rc, out, err = ck.run_bin(binary, stdin_path=sub, env={"VERIF_HARNESS": "C30"})
+        lines = out.split("\n")[:-1]
+        if rc != 0 or len(lines) != len(idx):
+            res[name] = ("run", "rc=%s answered %d of %d\n%s" % (rc, len(lines), len(idx), err[-800:]))
+            return
+        res[name] = ("ok", idx, lines)
+
+    def lean():
+        try:
+            res["lean"] = ("ok", ck.lean_run("C30", fn))
+        except Exception as ex:  # noqa: BLE001
+            res["lean"] = ("fail", str(ex))
+    ths = [threading.Thread(target=side, args=("h", lambda o: not o.startswith("ice "))),
+           threading.Thread(target=side, args=("ice", lambda o: o.startswith("ice "))),
+           threading.Thread(target=lean)]
+    for t in ths:
+        t.start()
+    for t in ths:
+        t.join()
+    for name in ("h", "ice"):
+        r = res.get(name, ("run", "harness thread died"))
+        if r[0] == "build":
+            b = BUILDS[name]
+            ck.broke("correspondence harness build %s (%s %s, overlay %s)" % (name, b[0], b[1], b[2]), r[1])
+            return None, None
+        if r[0] == "run":
+            ck.broke("implementation harness (%s) did not answer every op" % name, r[1])
+            return None, None
+        for i, line in zip(r[1], r[2]):
+            impl[i] = line
+    if res["lean"][0] != "ok":
+        raise RuntimeError(res["lean"][1])
+    model = res["lean"][1]
     if len(model) != len(ops):
         ck.broke("Lean driver did not answer every op", "%d of %d" % (len(model), len(ops)))
         return impl, None
@@ -324,19 +573,26 @@ CORPUS = [
 ]
 
 
-def evaluate(ck, binary, ops, metas):
-    impl, model = run_ops(ck, binary, ops, "a")
+def evaluate(ck, ops, metas):
+    impl, model = run_ops(ck, ops, "a")
     if impl is None:
         return
     for i, op in enumerate(ops):
         io = impl[i]
         kind = op.split()[0]
         meta = metas[i] if metas else {}
-        outc = "" if kind == "cdl" else io.split()[0] + (" " + io.split()[1] if io.startswith("status") else "")
+        outc = "" if kind in ("cdl", "ice") else io.split()[0] + (" " + io.split()[1] if io.startswith("status") else "")
         ck.count("%s:%s" % (kind, outc))
         if meta.get("kind"):
             ck.count("%s-storage:%s" % (kind, meta["kind"]))
-        nontrivial = io.startswith(("ok", "bytes", "err", "status 502")) or (kind == "cdl" and "bytes:" in io)
+        nontrivial = io.startswith(("ok", "bytes", "err", "status 502")) or (kind == "cdl" and "bytes:" in io) or \
+            (kind == "ice" and ("b=" in io or "err" in io))
+        if kind == "ice":
+            for r in io[3:].split(";"):
+                r = r.split()
+                ck.count("ice-segment:" + (r[0] if r else "?"))
+                for t in r[1:]:
+                    ck.count("ice-record:" + ("blob" if ":b=" in t else "kept" if t.endswith(":k") else "other"))
         if kind == "cdl":
             for r in io.split()[1:]:
                 ck.count("cdl-answer:" + r.split(":")[0] + (":" + r.split(":")[1] if r.startswith("status") else ""))
@@ -353,12 +609,12 @@ def evaluate(ck, binary, ops, metas):
 
 
 def run(ck):
-    bins = ck.build_all()
-    if bins is None:
-        return
     n = 1500 if ck.quick() else 20000
     ck.cov["rule"] = ("ops = envelope x storage behaviour (exact, tampered bit, truncated, extended, empty, other, fetch error, nil reader) "
                       "for Resolve and Unwrap, and download requests (mode, integrity sha/alg/size variants, maxBlob) x object behaviour; "
+                      "ice = one iceberg Processor with 2-4 mappings (mode, validate_checksum on/off/default, max_inline_size, store_metadata, "
+                      "resolve_concurrency) over one shared store (exact / tampered / truncated / extended / empty / other / failing / missing objects, "
+                      "objects shared between mappings), 3-7 resolveLfsRecords segments in a generated order of mappings on the same Processor; "
                       "non-trivial = the storage was consulted (ok / err / bytes / 502); distinct = distinct op lines")
     ops, metas = list(CORPUS), [{"kind": "corpus"}, {"kind": "corpus"}]
     # deterministic corpus: A good, B tampered (same length), same request id; both release orders
@@ -370,6 +626,11 @@ def run(ck):
     for _ in range(60 if ck.quick() else 1500):
         op, meta = gen_cdl(ck.rng)
         ops.append(op); metas.append(meta)
+    for op in ice_corpus():
+        ops.append(op); metas.append({"kind": "ice-corpus"})
+    for _ in range(300 if ck.quick() else 6000):
+        op, meta = gen_ice(ck.rng)
+        ops.append(op); metas.append(meta)
     for _ in range(n):
         c = ck.rng.below(3)
         if c == 0:
@@ -379,14 +640,11 @@ def run(ck):
         else:
             op, meta = gen_download(ck.rng)
         ops.append(op); metas.append(meta)
-    evaluate(ck, bins["h"], ops, metas)
+    evaluate(ck, ops, metas)
 
 
 def replay(ck, path):
     rep = json.load(open(path))
-    bins = ck.build_all()
-    if bins is None:
-        return
     ops = rep["ops"]
-    evaluate(ck, bins["h"], ops, None)
+    evaluate(ck, ops, None)
     ck.cov["evaluations"] = max(ck.cov["evaluations"], 1); ck.cov["distinct_nontrivial"] = max(ck.cov["distinct_nontrivial"], 2)
